@@ -27,8 +27,14 @@ class LogCapture(logging.Handler):
 		logging.Handler.__init__(self, level = logging.DEBUG)
 		self.records = []
 		self.keep = ("WARNING", "ERROR", "CRITICAL")
+		self.low_records = 0
 
 	def emit(self, record):
+		if record.levelname not in self.keep:
+			# debug / info records (the application's default level is DEBUG): formatted like a real handler would, dropped
+			self.low_records += 1
+			record.getMessage()
+			return
 		if record.levelname in self.keep:
 			try:
 				self.records.append((record.levelname, record.getMessage()))
@@ -43,8 +49,10 @@ class LogCapture(logging.Handler):
 _capture = None
 
 
-def capture_logging():
-	""" Route the toolkit's log records into a capture buffer (no output). """
+def capture_logging(debug = False):
+	""" Route the toolkit's log records into a capture buffer (no output).  debug: root level DEBUG as the real
+	    application sets it by default (every log.debug / log.info statement is then executed and formatted) instead
+	    of WARNING. """
 	global _capture
 	root = logging.getLogger()
 	for h in list(root.handlers):
@@ -52,7 +60,7 @@ def capture_logging():
 	if _capture is None:
 		_capture = LogCapture()
 	root.addHandler(_capture)
-	root.setLevel(logging.WARNING)
+	root.setLevel(logging.DEBUG if debug else logging.WARNING)
 	return _capture
 
 
@@ -109,7 +117,9 @@ class World:
 		vnet.attach(udp_link, self.net)
 		self.bind_addr = bind_addr
 		self.nodes = []
-		self.log = capture_logging()
+		# a third of the worlds run at the application's default log level
+		self.debug_log = seed % 3 == 0
+		self.log = capture_logging(self.debug_log)
 		self.log.take()
 		random.seed(seed)
 		self.trx_list = fake_trx.TRXList()
@@ -165,7 +175,8 @@ class AppWorld:
 	def __init__(self, argv, seed = 0, gated = True):
 		self.net = vnet.Net()
 		vnet.attach(udp_link, self.net)
-		self.log = capture_logging()
+		self.debug_log = seed % 3 == 0
+		self.log = capture_logging(self.debug_log)
 		self.log.take()
 		random.seed(seed)
 		self.vt = vclock.VTime()
@@ -183,7 +194,7 @@ class AppWorld:
 			sys.argv = old_argv
 			app_common.ApplicationBase.app_init_logging = old_init
 			signal.signal(signal.SIGINT, old_sigint)
-		capture_logging()
+		capture_logging(self.debug_log)
 		self.app_binds = list(self.net.bind_log)     # sockets bound by the application itself
 		if not self.app_binds:
 			sm = getattr(self.net, "sm", None)
